@@ -38,11 +38,26 @@ CHECKS = {
         'ref': 'DESIGN.md section 3 C05', 'note': NOTE_COMMON,
         'technique': 'deterministic simulation: seeded scheduler (PCT / random walk) + wire oracle',
     },
+    'C06': {
+        'text': 'Seeded search over uplink traffic of all 256 type codes (error / non-error variants) in both modes, queue fill levels around 128 and 0-4 reader tasks racing the '
+                'receiver. A reference dispatch table written from the README gives the expected pushes per queue; the simulator observes the order of critical sections on each '
+                'queue mutex, which is the linearisation order in which a sequential bounded-FIFO model is replayed: every pop must return exactly the model\'s element.',
+        'ref': 'DESIGN.md section 3 C06', 'note': NOTE_COMMON,
+        'technique': 'deterministic simulation: linearisation order from the lock model + sequential bounded-FIFO reference',
+    },
     'C12': {
         'text': 'Hostile uplink streams (random, mutated, grammar-generated CRC-valid packets with adversarial length/address/type/field values, oversized frames) in debug and '
                 'normal mode against generated configurations, under ASan/UBSan with deterministic fill patterns; then a liveness probe: a known-good packet must still be processed.',
         'ref': 'DESIGN.md section 3 C12', 'note': NOTE_COMMON,
         'technique': 'deterministic simulation: line-noise / adversarial-frame injection + sanitizers + bounded-liveness probe',
+    },
+    'C16': {
+        'text': 'Seeded sequences of 2-5 sessions in one process (debug / pointer / simulated serial device / silent interface / unopenable device / missing configuration file, '
+                'auto-flush on or off, stop-while-stopped, start-while-running) with activity in between. Oracles: start result, shutdown transcript, thread create/join '
+                'bookkeeping with never-reused synthetic handles (a stale join is detected, not executed), exact library-attributed live-heap accounting after every stop, and '
+                'equality of the last session with a reference copy of itself run on process-start static state.',
+        'ref': 'DESIGN.md section 3 C16', 'note': NOTE_COMMON,
+        'technique': 'deterministic simulation: multi-session histories + thread/heap bookkeeping + fresh-state differential',
     },
 }
 
